@@ -286,5 +286,22 @@ Definition gen_oords : oords := mkOords
 (* the load at the top of initialize_or_wait must be an Acquire too: it also leads to get_unchecked *)
 Definition once_ord_ok : bool :=
   oord_premises gen_oords && is_acquire (oord_at "once_cell::OnceCell::initialize_or_wait" 0 0).
-Lemma once_ord_premises : once_ord_ok = true.
-Proof. vm_compute. reflexivity. Qed.
+
+(* ---------- search support: an executable form of OHb and a bounded schedule search ----------
+   (used only when [once_ord_premises] no longer checks, to exhibit a schedule of the model on which the
+   happens-before statement fails; it is not part of any proof) *)
+Definition inclb (a b : list nat) : bool := forallb (fun x => existsb (Nat.eqb x) b) a.
+Definition hb_okb (g : ogst) : bool := forallb (fun t => inclb (ot_refs t) (ot_view t)) (og_thr g).
+Definition all_actions : list oaction := [OLoad; OCas; OWrite; OStoreInit; OGuardDrop].
+Definition moves (n : nat) : list (nat * oaction) := list_prod (seq 0 n) all_actions.
+Fixpoint search (O : oords) (n depth : nat) (g : ogst) (pre : list (nat * oaction)) : option (list (nat * oaction)) :=
+  if negb (hb_okb g) then Some (rev pre) else
+  match depth with
+  | O => None
+  | S d => fold_left (fun acc m => match acc with Some _ => acc | None => search O n d (ostep O g (fst m) (snd m)) (m :: pre) end) (moves n) None
+  end.
+Definition bad_schedule : option (list (nat * oaction)) := search gen_oords 2 4 (og0 2) [].
+Definition ord_report : list (string * ord * bool) :=
+  [("once_cell::OnceCell::is_initialized load", oo_load gen_oords, is_acquire (oo_load gen_oords));
+   ("once_cell::OnceCell::initialize_or_wait load", oord_at "once_cell::OnceCell::initialize_or_wait" 0 0, is_acquire (oord_at "once_cell::OnceCell::initialize_or_wait" 0 0));
+   ("once_cell::OnceCell::initialize_or_wait store(Initialized)", oo_store gen_oords, is_release (oo_store gen_oords))].
